@@ -133,8 +133,13 @@ impl TryFrom<Claims> for Permissions {
             }
         }
 
-        permissions = permissions
-            .expires_at(std::time::UNIX_EPOCH + std::time::Duration::from_secs(claims.exp));
+        // An expiry beyond what SystemTime can represent never comes: treat it as "does not expire"
+        // instead of overflowing (and panicking) in the addition.
+        if let Some(expires_at) =
+            std::time::UNIX_EPOCH.checked_add(std::time::Duration::from_secs(claims.exp))
+        {
+            permissions = permissions.expires_at(expires_at);
+        }
 
         permissions.build().map_err(|err| match err {
             PermissionsBuildError::BuildError => Error::ClaimsError,
